@@ -62,26 +62,51 @@ static void mutate (MEMF *m, const CORP *base, char *desc, size_t dlen)
 }
 
 
-/* systematic chunk mutations: enumerate every 4-character printable marker at an even offset in the first 'span' bytes; mutation 'kind' of marker 'idx'.
-** returns 0 when idx is past the last marker */
-static int mutate_marker (MEMF *m, const CORP *base, int idx, int kind, long span, char *desc, size_t dlen)
-{	long p, found = -1 ; int n = 0 ; uint32_t old ; int big ;
-	if (span > base->len - 8) span = base->len - 8 ;
-	for (p = 0 ; p < span ; p += 2) if (is_marker (base->d + p)) { if (n == idx) { found = p ; break ; } n++ ; }
-	if (found < 0) return 0 ;
-	mv_from (m, base->d, base->len) ; m->cap = m->len + 1 ;
-	big = (kind & 1) ; old = get32 (m->d + found + 4, big) ;
-	switch (kind >> 1)
-	{	case 0 : put32 (m->d + found + 4, 0, big) ; break ;
-		case 1 : put32 (m->d + found + 4, old + 1, big) ; break ;
-		case 2 : put32 (m->d + found + 4, old - 1, big) ; break ;
-		case 3 : put32 (m->d + found + 4, 0x7fffffff, big) ; break ;
-		case 4 : put32 (m->d + found + 4, (uint32_t) (m->len - found), big) ; break ;
-		case 5 : m->d [found] = 'z' ; m->d [found + 1] = 'Z' ; break ;			/* unknown chunk id */
-		case 6 : put32 (m->d + found + 4, 0xfffffff0u, big) ; break ;
-		default : m->len = found + 8 + ((kind & 1) ? 3 : 0) ; break ;			/* file ends inside this chunk */
+/* systematic chunk mutations.  The chunks of the header are found by WALKING the container's chunk list (RIFF/RIFX/RF64 32-bit
+** little/big-endian sizes, IFF/AIFF big-endian with even padding, CAF 64-bit big-endian, W64 GUID + 64-bit little-endian), so that text
+** inside a chunk is not mistaken for a chunk; containers without such a list fall back to every printable 4-character tag at an even offset.
+** mutation 'kind' (16 kinds) of chunk 'idx'; returns 0 when idx is past the last chunk found in the first 'span' bytes. */
+typedef struct { long at, szoff ; int big ; } CHUNKPOS ;
+static uint64_t get64 (const unsigned char *p, int big) { return big ? ((uint64_t) get32 (p, 1) << 32 | get32 (p + 4, 1)) : ((uint64_t) get32 (p + 4, 0) << 32 | get32 (p, 0)) ; }
+static int walk_chunks (const CORP *base, long span, CHUNKPOS *out, int max)
+{	const unsigned char *d = base->d ; long len = base->len, p ; int n = 0, layout = -1 ;
+	if (len < 24) return 0 ;
+	if (!memcmp (d, "RIFF", 4) || !memcmp (d, "RF64", 4)) layout = 0 ; else if (!memcmp (d, "RIFX", 4)) layout = 1 ;
+	else if (!memcmp (d, "FORM", 4)) layout = 2 ; else if (!memcmp (d, "caff", 4)) layout = 3 ; else if (!memcmp (d, "riff", 4)) layout = 4 ;
+	if (layout < 0)
+	{	for (p = 0 ; p < span && p + 8 <= len && n < max ; p += 2) if (is_marker (d + p)) { out [n].at = p ; out [n].szoff = 4 ; out [n].big = -1 ; n++ ; }
+		return n ; }
+	if (layout <= 2) { out [n].at = 0 ; out [n].szoff = 4 ; out [n].big = layout != 0 ; n++ ; p = 12 ; }
+	else if (layout == 3) p = 8 ;
+	else { out [n].at = 0 ; out [n].szoff = 16 ; out [n].big = 0 ; n++ ; p = 40 ; }
+	while (p + 8 <= len && p < span && n < max)
+	{	uint64_t sz ;
+		if (layout <= 2) { int big = layout != 0 ; out [n].at = p ; out [n].szoff = 4 ; out [n].big = big ; n++ ; sz = get32 (d + p + 4, big) ; if (!memcmp (d + p, "LIST", 4) || !memcmp (d + p, "list", 4)) { p += 12 ; continue ; } p += 8 + (long) (sz > 0x7fffffff ? 0x7fffffff : sz) ; if (p & 1) p++ ; }
+		else if (layout == 3) { if (p + 12 > len) break ; out [n].at = p ; out [n].szoff = 8 ; out [n].big = 1 ; n++ ; sz = get64 (d + p + 4, 1) ; if (sz > 0x7fffffff) break ; p += 12 + (long) sz ; }
+		else { if (p + 24 > len) break ; out [n].at = p ; out [n].szoff = 16 ; out [n].big = 0 ; n++ ; sz = get64 (d + p + 16, 0) ; if (sz > 0x7fffffff || sz < 24) break ; p += (long) ((sz + 7) & ~(uint64_t) 7) ; }
 		}
-	snprintf (desc, dlen, "marker#%d(%.4s)@%ld kind %d", idx, base->d + found, found, kind) ;
+	return n ;
+}
+static int mutate_marker (MEMF *m, const CORP *base, int idx, int kind, long span, char *desc, size_t dlen)
+{	CHUNKPOS cp [200] ; int n, big ; long found, so ; uint32_t old ;
+	if (span > base->len - 8) span = base->len - 8 ;
+	n = walk_chunks (base, span, cp, 200) ;
+	if (idx >= n) return 0 ;
+	found = cp [idx].at ; so = found + cp [idx].szoff ; if (so + 4 > base->len) return 0 ;
+	mv_from (m, base->d, base->len) ; m->cap = m->len + 1 ;
+	big = cp [idx].big < 0 ? (kind & 1) : (kind & 1) ? !cp [idx].big : cp [idx].big ;	/* even kinds: the container's own byte order; odd kinds: the other one */
+	old = get32 (m->d + so, big) ;
+	switch (kind >> 1)
+	{	case 0 : put32 (m->d + so, 0, big) ; break ;
+		case 1 : put32 (m->d + so, old + 1, big) ; break ;
+		case 2 : put32 (m->d + so, old - 1, big) ; break ;
+		case 3 : put32 (m->d + so, 0x7fffffff, big) ; break ;
+		case 4 : put32 (m->d + so, (uint32_t) (m->len - found), big) ; break ;
+		case 5 : m->d [found] = 'z' ; m->d [found + 1] = 'Z' ; break ;			/* unknown chunk id */
+		case 6 : put32 (m->d + so, 0xfffffff0u, big) ; break ;
+		default : m->len = found + 8 + ((kind & 1) ? 3 : 0) ; if (m->len > base->len) m->len = base->len ; break ;			/* file ends inside this chunk */
+		}
+	snprintf (desc, dlen, "chunk#%d(%.4s)@%ld kind %d", idx, base->d + found, found, kind) ;
 	return 1 ;
 }
 #define MUTATE_MARKER_KINDS 16
